@@ -186,6 +186,13 @@ func (c *Collection) CreateColumn(columnName string, column Column) error {
 		capacity = uint32(c.opts.Capacity)
 	}
 
+	// The column must reach every block the fill list reaches, not just the row count
+	c.lock.RLock()
+	if extent := uint32(len(c.fill)) << 6; extent > capacity {
+		capacity = extent - 1
+	}
+	c.lock.RUnlock()
+
 	column.Grow(capacity)
 	c.cols.Store(columnName, columnFor(columnName, column))
 
